@@ -14,7 +14,7 @@ import traceback
 VERIF = os.path.dirname(os.path.dirname(os.path.abspath(__file__)))
 REPO = os.environ.get('T4GC_REPO', '/repo')
 
-CONTRACT_MODULES = ['c02', 'c03', 'c04', 'c06', 'c07', 'c01', 'c11', 'c13', 'c05', 'c08', 'c09', 'c10', 'c12',
+CONTRACT_MODULES = ['c02', 'c03', 'c04', 'c06', 'c07', 'c01', 'c11', 'c13', 'c05', 'c08', 'c09', 'c10', 'c12', 'c14',
                     'c15', 'c16', 'c17', 'c18']
 
 
